@@ -5,7 +5,7 @@
 (* evaluates the specification's definition of the case.                   *)
 (***************************************************************************)
 EXTENDS FftFamily
-CONSTANTS Shapes, Full, Names
+CONSTANTS Shapes, Level, Names     \* Level 0: thin (one option varied at a time), 1: n x norm pairs, 2: full product
 VARIABLES c, out, done
 vars == <<c, out, done, tab>>
 
@@ -23,13 +23,17 @@ NOpts(name, L) ==
   ELSE {NoneI} \cup {n \in {L - 1, L + 1, L + 3} : n >= 1}
 N1(name, L) == IF C2R(name) THEN 2 * L - 1 ELSE L + 1
 NNorm1(name, L) ==
-  IF Full THEN NOpts(name, L) \X ({"none"} \cup Norms)
+  IF Level = 2 THEN NOpts(name, L) \X ({"none"} \cup Norms)
   ELSE (NOpts(name, L) \X {"none"}) \cup ({n \in {NoneI, N1(name, L)} : n \in NOpts(name, L)} \X Norms)
+\* thin: every axis with default n and norm; every n / norm only on the first axis
+Thin1(cc) == Level > 0 \/ (cc.n = NoneI /\ cc.norm = "none") \/ cc.axis = 0
 Cases1(name) ==
   {[name |-> name, sh |-> sh, kind |-> k, n |-> nn[1], axis |-> a, s |-> <<>>, axes |-> <<>>, norm |-> nn[2]] :
      sh \in Shapes, k \in Kinds(name), a \in AxisOpts(3), nn \in (0..30 \cup {NoneI}) \X ({"none"} \cup Norms)}
 Valid1(cc) == /\ cc.axis \in AxisOpts(Len(cc.sh))
               /\ <<cc.n, cc.norm>> \in NNorm1(cc.name, LineLen(cc.sh, cc.axis))
+              /\ Thin1(cc)
+              /\ (Level = 0 => (cc.norm = "none" \/ cc.n # NoneI \/ cc.kind = "complex" \/ RealOnly(cc.name)))
 
 \* ---- 2-D and n-D names
 Pairs(r) == {<<i, j>> : i \in 0..(r - 1), j \in 0..(r - 1)} \ {<<i, i>> : i \in 0..(r - 1)}
@@ -49,10 +53,13 @@ SOpts(name, sh, axes) ==
      \cup {SMinus(name, sh, ea), SPlus(name, sh, ea)}
      \cup (IF name \in NamesN /\ axes = <<>> /\ r >= 2
            THEN {[i \in 1..(r - 1) |-> Base(name, sh, [j \in 1..(r - 1) |-> j], i) + 1]} ELSE {})
+ThinAxes(name, r) == IF name \in Names2 THEN {<<1, 0>>} ELSE {<<>>, <<0>>}
 SNorm(name, sh, axes) ==
-  IF Full THEN SOpts(name, sh, axes) \X ({"none"} \cup Norms)
-  ELSE (SOpts(name, sh, axes) \X {"none"})
+  IF Level = 2 THEN SOpts(name, sh, axes) \X ({"none"} \cup Norms)
+  ELSE IF Level = 1 \/ axes \in ThinAxes(name, Len(sh))
+  THEN (SOpts(name, sh, axes) \X {"none"})
        \cup ((SOpts(name, sh, axes) \cap {<<>>, SPlus(name, sh, EffAxes(name, Len(sh), axes))}) \X Norms)
+  ELSE (SOpts(name, sh, axes) \cap {<<>>}) \X {"none"}
 CasesN(name) ==
   UNION {LET r == Len(sh)
          IN IF name \in Names2 /\ r < 2 THEN {}
@@ -75,16 +82,4 @@ ShapeOK == done => /\ Size(out.sh) = Len(out.v)
 \* real-output transforms return real values
 RealOut == (done /\ C2R(c.name)) => \A i \in 1..Len(out.v) : out.v[i].im = FZero
 
-\* ---- properties of the definitions (state independent; evaluated once)
-Applicable(f, p) == \A i \in 1..Len(p.v) : p.v[i].im = FZero \/ ~RealOnly(f)
-NamesDistinct ==
-  LET pt == [f \in AllNames |-> [p \in Probes |-> Eval(DefaultCase(f, p))]]
-  IN \A f \in AllNames : \A g \in AllNames \ {f} :
-       \E p \in Probes : Applicable(f, p) /\ Applicable(g, p) /\ Differ(pt[f][p], pt[g][p])
-\* (negative control) on a single real 1-D probe the names are NOT all distinguishable
-\* (fft = fftn, rfft = rfftn, ...): TLC must reject this
-NamesDistinctOnReal1D ==
-  LET p == Input(<<4>>, "real")
-      pt == [f \in AllNames \ Names2 |-> Eval(DefaultCase(f, p))]
-  IN \A f \in AllNames \ Names2 : \A g \in (AllNames \ Names2) \ {f} : Differ(pt[f], pt[g])
 =============================================================================
